@@ -57,6 +57,11 @@ class ConclusionSelector(LogicalBinaryOperator, ABC):
             self._conclusion_.update(conclusions)
             self.concluded_before[not self._is_false_].add(required_output)
 
+    def _reset_evaluation_state_(self):
+        # the conclusions that were produced are remembered per evaluation, not for the lifetime of the query
+        for seen_set in self.concluded_before.values():
+            seen_set.clear()
+
     @property
     def _plot_color_(self) -> ColorLegend:
         return ColorLegend("ConclusionSelector", "#eded18")
